@@ -41,10 +41,18 @@ func scenC41(e *Env) func() {
 	p := &c41Plan{Concurrency: Pick(e, 1, 2, 3, 0), DNSCacheMs: Pick(e, 3600000, 3600000, 40, 400, 1900)}
 	nh := e.Range(1, 3)
 	for i := 0; i < nh; i++ {
-		h := c41Host{ResolveMs: Pick(e, 0, 0, 5, 300), ResolveErr: e.Chance(8)}
+		h := c41Host{ResolveMs: Pick(e, 0, 0, 5, 300, 1000), ResolveErr: e.Chance(8)}
 		na := e.Range(1, 4)
+		allRefuse := e.Chance(25) // a host none of whose addresses accepts: every dial walks the whole rotation
+		if allRefuse {
+			na = e.Range(2, 4)
+		}
 		for j := 0; j < na; j++ {
-			h.Addrs = append(h.Addrs, Pick(e, "accept", "accept", "refuse", "hang", "slow"))
+			if allRefuse {
+				h.Addrs = append(h.Addrs, "refuse")
+			} else {
+				h.Addrs = append(h.Addrs, Pick(e, "accept", "accept", "refuse", "hang", "slow"))
+			}
 		}
 		p.Hosts = append(p.Hosts, h)
 	}
@@ -192,7 +200,7 @@ func c41Run(e *Env, p *c41Plan) {
 					e.Nontrivial = true
 				}
 				// the deadline covers the lookup as well as the connects
-				slack := holdBudget + 300*time.Millisecond
+				slack := holdBudget + 100*time.Millisecond
 				if took > timeout+slack {
 					e.Violation("timeout-exceeded", "DialTimeout(host%d, %v) returned after %v (err %v)", dl.Host, timeout, took, err)
 					return
